@@ -1,6 +1,7 @@
 import KyupyVerif.Proofs.WaveIOCheck
 import KyupyVerif.Proofs.PermExec
 import KyupyVerif.Proofs.WaveStrip
+import KyupyVerif.Model.LevelMem
 /-! A level under an ARBITRARY thread order (what a real GPU does, where the launcher gives no order): work items of
 different lanes always commute; work items of the same lane commute when the ops have disjoint footprints (the write
 region of each is disjoint from the read and write regions of the other) — accumulation into a shared `abuf` cell commutes
@@ -229,9 +230,7 @@ theorem evWave_reads_back (g : WCfg) (loc : Nat → Int) (o : OpRow) (sim : Nat)
     exact ⟨h.1, by have := h.2; omega⟩
 
 /-! ### Boolean form of the independence of two op rows under a memory map -/
-def disjointB (loc : Nat → Int) (cap : Nat → Nat) (i j : Nat) : Bool :=
-  decide (loc i + (cap i : Int) ≤ loc j) || decide (loc j + (cap j : Int) ≤ loc i)
-
+-- `disjointB` (region disjointness) is defined in `Model/LevelMem.lean` (the driver evaluates it)
 /-- the output region of each op is disjoint from the output region and from every operand region of the other -/
 def opsIndepB (loc : Nat → Int) (cap : Nat → Nat) (a b : OpRow) : Bool :=
   disjointB loc cap a.out b.out && b.ins.all (fun i => disjointB loc cap a.out i) && a.ins.all (fun i => disjointB loc cap b.out i)
